@@ -40,6 +40,11 @@ Definition kind_raw (k : nat) : kspec :=
   | 6 => {| k_ins := [("x", 1%Z)]; k_outs := ["x"]; k_fun := fun a => [2 * zn a 0 + 1]%Z |}
   | 7 => {| k_ins := [("_b", 2%Z)]; k_outs := ["y"]; k_fun := fun a => [zn a 0 + 13]%Z |}
   | 8 => {| k_ins := [("b", 1%Z)]; k_outs := ["_y"]; k_fun := fun a => [3 * zn a 0 + 4]%Z |}
+  (* channel names that are also attributes of the IO panels themselves (items, labels, ready,
+     fetch, connected, to_list): only ITEM access panel[name] reaches such a channel *)
+  | 9 => {| k_ins := [("items", 2%Z)]; k_outs := ["labels"]; k_fun := fun a => [4 * zn a 0 + 2]%Z |}
+  | 10 => {| k_ins := [("ready", 1%Z); ("fetch", 3%Z)]; k_outs := ["connected"; "to_list"];
+             k_fun := fun a => [zn a 0 + zn a 1; zn a 0 - 2 * zn a 1]%Z |}
   | _ => {| k_ins := []; k_outs := []; k_fun := fun _ => [] |}
   end.
 
@@ -421,6 +426,17 @@ Definition assign (st : wf) (key : string) (v : Z) : wf * res :=
               end
   end.
 
+(* wf.inputs[key].value = v: the channel is fetched by ITEM access (IO.__getitem__ goes straight
+   to __getattr__, i.e. to channel_dict: AttributeError when absent), then assigned *)
+Definition item_assign (st : wf) (key : string) (v : Z) : wf * res :=
+  match build_io st DIn with
+  | None => (st, RExc TypeErr)
+  | Some p => match assoc String.eqb key p with
+              | None => (st, RExc AttrErr)
+              | Some id => (set_val st id v, ROk)
+              end
+  end.
+
 (* wf.inputs[key] = wf.children[oc].outputs[ol] *)
 Definition wconnect (st : wf) (key oc ol : string) : wf * res :=
   match find_chan st DOut oc ol with
@@ -432,6 +448,24 @@ Definition wconnect (st : wf) (key oc ol : string) : wf * res :=
                   | None => (st, RExc TypeErr)
                   | Some id => (connect_ids st id o, ROk)
                   end
+      end
+  end.
+
+(* wf.inputs[key] = wf.outputs[okey]: both ends through the workflow's panels, the source by item *)
+Definition wconnect2 (st : wf) (key okey : string) : wf * res :=
+  match build_io st DOut with
+  | None => (st, RExc TypeErr)
+  | Some po =>
+      match assoc String.eqb okey po with
+      | None => (st, RExc AttrErr)
+      | Some o =>
+          match build_io st DIn with
+          | None => (st, RExc TypeErr)
+          | Some p => match assoc String.eqb key p with
+                      | None => (st, RExc TypeErr)
+                      | Some id => (connect_ids st id o, ROk)
+                      end
+          end
       end
   end.
 
@@ -636,7 +670,9 @@ Inductive op :=
 | OOrphan (label : string)
 | OMoveAway (label : string)
 | OSetInputs (kw : list (string * Z))
-| OPull (label : string) (with_parent : bool).
+| OPull (label : string) (with_parent : bool)
+| OItemAssign (key : string) (v : Z)
+| OWConnect2 (key okey : string).
 
 Definition step (st : wf) (o : op) : wf * res :=
   match o with
@@ -659,6 +695,8 @@ Definition step (st : wf) (o : op) : wf * res :=
   | OMoveAway l => leave st l
   | OSetInputs kw => set_inputs st kw
   | OPull l wp => pull st l wp
+  | OItemAssign k v => item_assign st k v
+  | OWConnect2 k ok => wconnect2 st k ok
   end.
 
 Fixpoint run_ops (st : wf) (ops : list op) : wf :=
@@ -697,7 +735,8 @@ Definition snapshot (st : wf) : obs :=
 Definition panel_obs (st : wf) (d : dir) : obs :=
   match build_io st d with
   | None => OL [OS "TypeError"]
-  | Some p => OL [OS "ok"; OL (map (fun e => OL [OS (fst e); on (snd e)]) p)]
+  | Some p => OL [OS "ok"; OL (map (fun e => OL [OS (fst e); on (snd e)]) p);
+                  OL (map (fun e => on (snd e)) p)]       (* what panel[key] (item access) returns *)
   end.
 
 Definition exc_name (e : exc) : string :=
